@@ -20,3 +20,83 @@ def classify(kf, prop, failure):
         return bool(f(prop, failure))
     except Exception:
         return False
+
+
+# ---------------------------------------------------------------------------------------------
+# KF1 / KF2 (C01, C02, C17)
+# ---------------------------------------------------------------------------------------------
+
+def _lossless_explained(q, printed, kf1, kf2):
+    """is `printed` what the known findings predict for query `q`?"""
+    from . import parsing
+    base = q
+    if kf1:
+        base = parsing.remove_spans(q, parsing.blank_before_colon_spans(q))
+    if parsing.respell_ok(base, printed) is None:
+        return True
+    if kf2:
+        a = parsing.NUM_RE.split(base)
+        b = parsing.NUM_RE.split(printed)
+        if len(a) != len(b):
+            return False
+        long_ = set(parsing.long_numerals(q))
+        for i in range(1, len(a), 2):
+            if a[i] in long_ and b[i][:1] == a[i][:1]:
+                b[i] = a[i]
+        return parsing.respell_ok("".join(a), "".join(b)) is None
+    return False
+
+
+def _lossless_explained_base(base, orig_slice, printed, kf2):
+    """like _lossless_explained but `base` already has the KF1 blanks removed"""
+    from . import parsing
+    if parsing.respell_ok(base, printed) is None:
+        return True
+    if kf2:
+        a = parsing.NUM_RE.split(base)
+        b = parsing.NUM_RE.split(printed)
+        if len(a) != len(b):
+            return False
+        long_ = set(parsing.long_numerals(orig_slice))
+        for i in range(1, len(a), 2):
+            if a[i] in long_ and b[i][:1] == a[i][:1]:
+                b[i] = a[i]
+        return parsing.respell_ok("".join(a), "".join(b)) is None
+    return False
+
+
+def _c02_explained(f, tag):
+    inp = f.get("input") or {}
+    if "problems" not in inp:
+        return None
+    return inp.get("unexplained") == 0 and any(tag in e for e in inp.get("explained_by", []))
+
+
+@classifier("KF1")
+def _kf1(prop, f):
+    inp = f.get("input") or {}
+    c02 = _c02_explained(f, "KF1")
+    if c02 is not None:
+        return c02
+    q, printed = inp.get("q"), inp.get("printed")
+    if q is None or printed is None:
+        return False
+    from . import parsing
+    if not parsing.blank_before_colon_spans(q):
+        return False
+    return (not _lossless_explained(q, printed, False, True)) and _lossless_explained(q, printed, True, True)
+
+
+@classifier("KF2")
+def _kf2(prop, f):
+    inp = f.get("input") or {}
+    c02 = _c02_explained(f, "KF2")
+    if c02 is not None:
+        return c02
+    q, printed = inp.get("q"), inp.get("printed")
+    if q is None or printed is None:
+        return False
+    from . import parsing
+    if not parsing.long_numerals(q):
+        return False
+    return (not _lossless_explained(q, printed, False, False)) and _lossless_explained(q, printed, False, True)
